@@ -33,12 +33,23 @@ def register(name, module, filename, sources):
 
 
 def _load_registry():
-    # further units register themselves here
-    reg = os.path.join(HERE, "tr_units", "registry.json")
-    if os.path.exists(reg):
-        with open(reg) as f:
-            for name, (module, filename, sources) in json.load(f).items():
-                UNITS[name] = (module, filename, sources)
+    """further units register themselves with ONE FILE PER UNIT: tools/tr_units/registry.d/<Unit>.json
+    containing {"Unit": ["tr_units.module", "File.v", ["deepali/.../src.py", ...]]}
+    (the single shared registry.json is still read, but concurrent edits clobbered it once)"""
+    regs = []
+    single = os.path.join(HERE, "tr_units", "registry.json")
+    if os.path.exists(single):
+        regs.append(single)
+    ddir = os.path.join(HERE, "tr_units", "registry.d")
+    if os.path.isdir(ddir):
+        regs += [os.path.join(ddir, f) for f in sorted(os.listdir(ddir)) if f.endswith(".json")]
+    for reg in regs:
+        try:
+            with open(reg) as f:
+                for name, (module, filename, sources) in json.load(f).items():
+                    UNITS[name] = (module, filename, sources)
+        except (ValueError, OSError):
+            continue
 
 
 def run(units=None, src_root=None):
